@@ -2,6 +2,7 @@ package main
 
 import (
 	"fmt"
+	"strings"
 	"math/rand"
 )
 
@@ -51,7 +52,7 @@ func (g *gen) opts(typ string) []Opt {
 	}
 	if !g.noDefaults && g.rng.Intn(3) == 0 {
 		switch {
-		case isIntType(typ) || typ == "tinyint(4)" || typ == "tinyint(1)" || typ == "double" || typ == "float" || typ == "decimal(10,2)":
+		case isIntType(typ) || typ == "tinyint(4)" || typ == "tinyint(1)" || typ == "double" || typ == "float" || strings.HasPrefix(typ, "decimal"):
 			os = append(os, Opt{Kind: "default", DTag: "num", Val: fmt.Sprint(g.rng.Intn(100))})
 		case (typ == "varchar(64)" || typ == "varchar(255)" || typ == "char(3)" || typ == "VARCHAR(64)") && g.dialect == "mysql":
 			os = append(os, Opt{Kind: "default", DTag: "str", Val: g.pick([]string{"x", "it's", "", "A b"})})
